@@ -15,7 +15,22 @@ def main():
     ap.add_argument("--seed", type=int, default=int(os.environ.get("VERIF_SEED", "20260926")))
     a = ap.parse_args()
     mod = importlib.import_module("harness.props." + a.pid.lower())
-    sys.exit(core.run_property(mod, a.tier, a.seed, replay=a.replay))
+    try:
+        rc = core.run_property(mod, a.tier, a.seed, replay=a.replay)
+    except Exception as e:                                   # noqa: BLE001
+        # the machinery itself could not run to the end (e.g. the library under test no longer imports, or an internal helper
+        # the observers rely on is gone): the property is not shown to hold - say so in the agreed form instead of a bare traceback
+        import traceback
+        tb = traceback.format_exc()
+        sys.stderr.write(tb)
+        path = core.write_replay(mod.PID, "crash", {
+            "property": mod.PID, "obligation": "the check could not be carried out",
+            "why": f"{type(e).__name__}: {e}"[:500], "traceback": tb[-3000:], "tier": a.tier, "seed": a.seed,
+            "repo": str(core.REPO)})
+        print(f"# {mod.PID}: the check could not be carried out: {type(e).__name__}: {str(e)[:200]}")
+        print(f"VIOLATION property={mod.PID} replay={path} no-failing-input-found")
+        rc = 1
+    sys.exit(rc)
 
 
 if __name__ == "__main__":
